@@ -233,6 +233,10 @@ func loadSearches(prop string, limited bool) func(p *run.Part, tier string) []*s
 				Deadline: dl, OnState: loadProbe(p, prop, cfg, seen, limited, []int{1, 3})}
 		}
 		ss := []*seqx.Search{mk(CfgDef3, "", depth), mk(CfgHash3, "", 4), mk(CfgClk3, "", 4), mk(CfgGap3, "", 4)}
+		if !limited {
+			// a configured ordering that is visibly not the default one: the rebuilt log must use it too
+			ss = append(ss, mk(CfgFww3, "", 4))
+		}
 		em := mk(CfgDef3, "", 4)
 		em.Alphabet = WithEmpty(Alphabet(3, false))
 		ss = append(ss, em)
